@@ -1,0 +1,44 @@
+// Copyright © 2022-2026 Obol Labs Inc. Licensed under the terms of a Business Source License 1.1
+
+//go:build verif
+
+// Verification contracts (comments only; read by /verif/govc, never compiled into charon).
+package aggsigdb
+
+//@ pure cancelled core.SignedData.Clone core.SignedData.MarshalJSON core.SyncSubcommitteeIndex
+
+//@ spec func nlw(qs []readQuery, m map[memDBKey]core.SignedData) bool = forall(i, 0, len(qs), !has(m, qs[i].memDBKey))
+
+//@ func (db *MemDB) execQuery
+//@ props C17
+//@ assigns nothing
+//@ callreq send query.response: has(db.data, query.memDBKey) && a1 == db.data[query.memDBKey]
+//@ ensures result <==> has(db.data, query.memDBKey)
+//@ ensures result ==> ncalls("send query.response") == 1 && ncalls(close) == 1
+//@ ensures !result ==> ncalls("send query.response") == 0 && ncalls(close) == 0
+
+//@ func (db *MemDB) execCommand
+//@ props C17 C01
+//@ assigns db.data, db.keysByDuty
+//@ callreq send command.response: has(old(db.data), command.memDBKey)
+//@ ensures has(old(db.data), command.memDBKey) ==> db.data == old(db.data)
+//@ ensures !has(old(db.data), command.memDBKey) ==> has(db.data, command.memDBKey) && db.data[command.memDBKey] == command.data
+//@ ensures forallk(k, old(db.data), has(db.data, k) && db.data[k] == old(db.data)[k])
+//@ ensures forallk(k, db.data, k == command.memDBKey || has(old(db.data), k))
+//@ ensures ncalls(close) == 1
+
+//@ func (db *MemDB) processBlockedQueries
+//@ props C17
+//@ assigns db.blockedQueries
+//@ ensures nlw(db.blockedQueries, db.data)
+//@ ensures forall(i, 0, len(db.blockedQueries), exists(j, 0, len(old(db.blockedQueries)), old(db.blockedQueries)[j] == db.blockedQueries[i]))
+//@ ensures forall(j, 0, len(old(db.blockedQueries)), !cancelled(old(db.blockedQueries)[j].cancel) && !has(db.data, old(db.blockedQueries)[j].memDBKey) ==> exists(i, 0, len(db.blockedQueries), db.blockedQueries[i] == old(db.blockedQueries)[j]))
+//@ loop 1 invariant forall(i, 0, len(db.blockedQueries), !has(db.data, db.blockedQueries[i].memDBKey) && exists(j, 0, $i, queries[j] == db.blockedQueries[i]))
+//@ loop 1 invariant forall(j, 0, $i, !cancelled(queries[j].cancel) && !has(db.data, queries[j].memDBKey) ==> exists(i, 0, len(db.blockedQueries), db.blockedQueries[i] == queries[j]))
+//@ loop 1 invariant queries == old(db.blockedQueries)
+
+//@ func (db *MemDB) Run
+//@ props C17
+//@ requires nlw(db.blockedQueries, db.data)
+//@ loop 1 invariant nlw(db.blockedQueries, db.data)
+//@ loop 2 invariant nlw(db.blockedQueries, db.data)
